@@ -291,7 +291,7 @@ Definition props_body (pkt : N) (m : mods) (p : props) (n : N) : res bytes :=
     when (can 35 && p_topic_alias_flag p && (0 <? p_topic_alias p)) (35 :: encodeUint16 (p_topic_alias p)) ++
     when (can 36 && p_maximum_qos_flag p && (p_maximum_qos p <? 2)) (36 :: [p_maximum_qos p]) ++
     when (can 37 && p_retain_available_flag p) (37 :: [p_retain_available p]) ++
-    when (negb (m_disallow_problem_info m) && can 38
+    when ((negb (m_disallow_problem_info m) || (pkt =? PUBLISH)) && can 38
           && ((m_max_size m =? 0) || (uint32 (n + blen ub + 1) <? m_max_size m))) ub ++
     when (can 39 && (0 <? p_maximum_packet_size p)) (39 :: encodeUint32 (p_maximum_packet_size p)) ++
     when (can 40 && p_wildcard_sub_available_flag p) (40 :: [p_wildcard_sub_available p]) ++
